@@ -44,8 +44,8 @@ _c("C14", "other", "I1 (type/shape/dtype) for Operation.backward and reduce_broa
    "DESIGN.md §6 C14, §14", "seed path of Tensor.backward and GRU writers bounded only", _T + "; AST writer enumeration; bounded seeding contract")
 _c("C15", "proof", "Every obligation the property rests on -- enter/exit/decorator contracts of the three managers for arbitrary depth, state accessors, toggles, nesting lemma, untracked fast paths of _op/_in_place_op/backward/shape.setter -- is discharged by PyVC+z3; bounded nesting enumeration is a cross-check.",
    "DESIGN.md §6 C15, §14", "trusted: Python `with` semantics as encoded in the executor; lemma is over contracts", _T)
-_c("C16", "other", "sliding_window_view (acceptance, shape, strides, in-bounds, read-only) and conv/pool validity incl. callee precondition discharged for unbounded integer values (enumerated dimension counts); layer values are a bounded contract vs naive formulas; known finding F8.",
-   "DESIGN.md §6 C16, §14", "trusted: as_strided addressing, C-contiguous strides; numeric kernels bounded", _T + " (NIA); bounded naive-formula contract")
+_c("C16", "other", "sliding_window_view (acceptance, shape, element identity as byte offsets for arbitrarily strided inputs under NumPy's contiguity-flag definition, in-bounds, read-only) and conv/pool validity incl. callee precondition discharged for unbounded integer values (enumerated dimension counts); layer values are a bounded contract vs naive formulas; known finding F8.",
+   "DESIGN.md §6 C16, §14", "trusted: as_strided addressing, definition of flags.C_CONTIGUOUS, ascontiguousarray; numeric kernels bounded", _T + " (NIA); bounded naive-formula contract")
 _c("C17", "other", "tensor()/astensor()/asarray() return-as-is rules and the Tensor.__init__ gate discharged; aliasing/dtype/creation agreement with NumPy is bounded over the input lattice.",
    "DESIGN.md §6 C17, §14", "np.array/np.asarray aliasing is an axiom checked boundedly", _T + "; bounded input lattice")
 _c("C18", "other", "save/load call structure discharged with the savez/load axiom; end-to-end round trip bounded.",
